@@ -74,12 +74,12 @@ LOCAL_PLAIN_ATTRS = {"append", "extend"}
 SELF_ATTR_PLAIN = {("styleSheet", "title")}
 # attributes of self that cannot be observed through the object model (diagnostics only)
 UNOBSERVED = {"_Property__nametoken"}
-# property setters whose checks cannot fire at this call site (dead checks); reason recorded in the output
+# property setters whose checks cannot fire at this call site (dead checks); reason recorded in the output.
+# (Two entries for `self.atkeyword = <keyword token>` were WRONG and have been removed: '@\\69mport' is typed IMPORT_SYM
+#  but rejected by _setAtkeyword.  The commit blocks now set atkeyword first, so no exemption is needed.)
 DEAD_CHECKS = {
-    ("CSSImportRule", "_setCssText", "atkeyword"): "the keyword is the value of a token already typed IMPORT_SYM",
     ("CSSImportRule", "_setCssText", "name"): "new['name'] is None or the str returned by _stringtokenvalue",
     ("CSSImportRule", "_setCssText", "media"): "new['media'] is a wellformed MediaList (checked when it was stored)",
-    ("CSSNamespaceRule", "_setCssText", "atkeyword"): "the keyword is the value of a token already typed NAMESPACE_SYM",
     ("CSSMediaRule", "_setCssText", "name"): "name is None or the str returned by _stringtokenvalue",
 }
 # boolean attributes of self that are fixed at construction and select a mode of the setter: one script per value
